@@ -300,6 +300,24 @@ PROPS = {
         note="NaN/Infinity are not in the property's list of extensions and are not judged; 0x00 is end of input for the API and is excluded",
         assumptions=COMMON_ASSUMPTIONS,
     ),
+    "C14": dict(
+        level="model_checking",
+        runs=[dict(harness="c14", variant="fast", shards=16,
+                   env={"LOCPATH": os.path.join(os.path.dirname(os.path.dirname(os.path.abspath(__file__))), "build", "locale")})],
+        deadline=dict(quick=240, thorough=1200),
+        rule="locale installations {global C, global comma, global C + thread comma, global comma + thread C, global comma + thread comma, global C + thread C} x "
+             "(every RFC number spelling over {-019.eE+} up to the length bound that contains a fraction or exponent, bare / in an array / as a member value, plus special texts) "
+             "and x (doubles m*10^e and binade samples serialized under PLAIN, NOZERO, PRETTY|SPACED), compared with the C-locale result; around every parse_ex/serialize call the thread "
+             "locale handle, the global LC_NUMERIC name, printf's decimal separator and the number of live locale objects are compared; one text per parser outcome class x 8 flag sets "
+             "x {with NUL, without, invalid length} x {duplocale fails, newlocale fails}; non-trivial = distinct input text",
+        bound=dict(quick="number spellings <= 5 bytes", thorough="number spellings <= 6 bytes, denser double family"),
+        states_stat="cases", transitions_stat="calls",
+        technique="exhaustive enumeration of locale installations x number texts x parser outcome classes on the real code, differential oracle against the C-locale run plus locale-state probes",
+        claim="under every locale installation every enumerated text parses to the same bits and every double serializes to the same bytes as in the C locale, and every return path of the "
+              "parser (success, continue, each error kind, size error, failed locale-object creation) leaves the thread locale, the global locale and the locale-object count unchanged",
+        note="the comma-decimal locale is synthesized offline from C.utf8 by bin/setup (decimal_point patched); if it cannot be loaded the run says so and is marked not exhaustive",
+        assumptions=COMMON_ASSUMPTIONS + ["glibc locale file layout (decimal_point at LC_NUMERIC offsets 0x20/0x24) as found in this image"],
+    ),
 }
 
 NOT_APPLICABLE = {}
